@@ -68,3 +68,55 @@ Theorem C04_count : forall (A S3 : Type) f_dx f0 fn (seg3 : A -> knot A -> A -> 
   (3 <= length ks -> exists r, constrained_spline f_dx f0 fn seg3 ks = Some r /\ length r = length ks - 1)%nat /\
   (length ks < 3 -> constrained_spline f_dx f0 fn seg3 ks = None)%nat.
 Proof. intros. split; [apply spline_total|apply spline_rejects]. Qed.
+
+(* ---- binary64: deviation of the returned cubic from the exact construction ---- *)
+From Flocq Require Import Core BinarySingleNaN.
+Require Import PP.FloatFacts PP.ErrorBound PP.ErrorRun PP.Proofs.KernelBounds.
+
+(* coefficient i (1..4 = a, b, c, d) of spline::segment as a term over inputs [f0; x0; y0; f1; x1; y1] *)
+Definition coef_e (i : nat) : expr := nth i k_spline__segment (Lit 0).
+(* safe_run: no operation under/overflows and the divisor dx = x1 - x0 stays away from 0 by more than its own
+   rounding error.  err_run is 2^-53 times the sum of the magnitudes of the intermediate results of the construction,
+   amplified by 1/dx at each of its divisions (lib/ErrorRun.v).  For ALL such inputs: *)
+Theorem C04_coefficient_float : forall (f0 x0 y0 f1 x1 y1 : F) (i : nat),
+  let env := [f0; x0; y0; f1; x1; y1] in
+  safe_run env (coef_e i) ->
+  Rabs (B2R (fev env (coef_e i)) - nth i (evals ROps (map B2R env) k_spline__segment) 0) <= err_run env (coef_e i)
+  /\ is_finite (fev env (coef_e i)) = true.
+Proof.
+  intros f0 x0 y0 f1 x1 y1 i env Hs. apply running_bound; [exact Hs|].
+  unfold rval, coef_e, evals. rewrite <- (map_nth (eval ROps (map B2R env))). reflexivity || (cbn [eval ROps o_lit]; unfold litR; reflexivity).
+Qed.
+
+(* the returned cubic (binary64 coefficients, evaluated exactly) stays within sum_i err_i |x|^i of the exact cubic at EVERY x *)
+Theorem C04_cubic_deviation : forall (f0 x0 y0 f1 x1 y1 : F) (x : R),
+  let env := [f0; x0; y0; f1; x1; y1] in
+  (forall i, (1 <= i <= 4)%nat -> safe_run env (coef_e i)) ->
+  let ch := map (fun i => B2R (fev env (coef_e i))) [1; 2; 3; 4]%nat in
+  let er := map (fun i => err_run env (coef_e i)) [1; 2; 3; 4]%nat in
+  Rabs (polyval ch x - polyval (cubic (B2R f0) (B2R x0) (B2R y0) (B2R f1) (B2R x1) (B2R y1)) x) <= polyval er (Rabs x).
+Proof.
+  intros f0 x0 y0 f1 x1 y1 x env Hs ch er.
+  assert (H1 := proj1 (C04_coefficient_float f0 x0 y0 f1 x1 y1 1 (Hs 1%nat ltac:(lia)))).
+  assert (H2 := proj1 (C04_coefficient_float f0 x0 y0 f1 x1 y1 2 (Hs 2%nat ltac:(lia)))).
+  assert (H3 := proj1 (C04_coefficient_float f0 x0 y0 f1 x1 y1 3 (Hs 3%nat ltac:(lia)))).
+  assert (H4 := proj1 (C04_coefficient_float f0 x0 y0 f1 x1 y1 4 (Hs 4%nat ltac:(lia)))).
+  set (l := evals ROps (map B2R env) k_spline__segment) in *.
+  assert (El : cubic (B2R f0) (B2R x0) (B2R y0) (B2R f1) (B2R x1) (B2R y1) = [nth 1 l 0; nth 2 l 0; nth 3 l 0; nth 4 l 0]) by reflexivity.
+  rewrite El. apply polyval_dev; [|reflexivity|reflexivity]. unfold ch, er. cbn [map zip_with].
+  constructor; [exact H1|]. constructor; [exact H2|]. constructor; [exact H3|]. constructor; [exact H4|]. constructor.
+Qed.
+
+(* hence it passes through both knots within that bound *)
+Theorem C04_interpolation_float : forall (f0 x0 y0 f1 x1 y1 : F),
+  let env := [f0; x0; y0; f1; x1; y1] in
+  (forall i, (1 <= i <= 4)%nat -> safe_run env (coef_e i)) -> B2R x1 - B2R x0 <> 0 ->
+  let ch := map (fun i => B2R (fev env (coef_e i))) [1; 2; 3; 4]%nat in
+  let er := map (fun i => err_run env (coef_e i)) [1; 2; 3; 4]%nat in
+  Rabs (polyval ch (B2R x0) - B2R y0) <= polyval er (Rabs (B2R x0)) /\
+  Rabs (polyval ch (B2R x1) - B2R y1) <= polyval er (Rabs (B2R x1)).
+Proof.
+  intros f0 x0 y0 f1 x1 y1 env Hs Hdx ch er.
+  destruct (C04_hermite (B2R f0) (B2R x0) (B2R y0) (B2R f1) (B2R x1) (B2R y1) Hdx) as (E0 & E1 & _).
+  split; [rewrite <- E0|rewrite <- E1]; apply C04_cubic_deviation; exact Hs.
+Qed.
